@@ -351,7 +351,8 @@ _RULE = {
     "quick": "VLQ: 0..2^16 dense, +-200 around every 2^k (k<=28) and +-2000 around 128^k, 10000 random < 2^28; round "
              "trips: every R/N/C pattern of length <= 4 over 3 values, 26 whole-tick values alone and in pairs, 30 "
              "keys x 18 meters, 16 channels x velocities 1..127, instruments 0..127, names of length 0..300, 1-4 "
-             "tracks x 0-5 seeded random bars (one key and meter per track, all 30 keys); bpm 4..1000; header tag / "
+             "tracks x 0-5 seeded random bars (one key and meter per track, all 30 keys); the reader alone on files of "
+             "the independent encoder: 30 keys x 3 meters x 3 leading rests; bpm 4..1000; header tag / "
              "track tag: every single-byte replacement; format numbers 3..600 and 2000 random; header lengths 0..5",
     "thorough": "as quick, plus VLQ 0..2^20 dense, stride 127 over 0..2^28, 500000 random; R/N/C patterns of length "
                 "<= 5; many more seeded random compositions; every bpm 4..7745 plus 5000 random larger ones the tempo "
